@@ -87,6 +87,11 @@ def run(shard, tier, acc):
                     acc.nontrivial += 1
                 else:
                     acc.count('status_request_without_report')
+                if 'q' in script and 'Exit command received' not in r.stderr:
+                    # whatever the status report does with the clock, the quit typed with it has to be acted on
+                    acc.fail(case, 'quit request %r after guess %d (%s, clock %r s): the keyboard body ended without acknowledging the quit (%d of %d guesses written, stderr tail %r)'
+                             % (script, j, name, T, len(r.stdout), len(ref), r.stderr.strip().splitlines()[-2:]), 'quit-request-dropped')
+                    continue
                 want = ref if 'q' not in script else ref[:len(r.stdout)]
                 if r.stdout != want or ('q' in script and len(r.stdout) < j):
                     bad = [l for l in r.stdout if l not in ref][:3]
@@ -163,8 +168,9 @@ def run_lines(shard, tier, acc):
                 # owes exactly what is missing - nothing of the uninterrupted stream may fall between the two runs
                 acc.nontrivial += 1
                 out = r.stdout
-                if 'Exit command received' not in r.stderr and out != ref:
-                    acc.fail(case, 'quit at line boundary %d (%s session): the stream stops after %d of %d guesses without the quit being acknowledged' % (n, name, len(out), len(ref)), 'line-cut')
+                if 'Exit command received' not in r.stderr:
+                    acc.fail(case, 'quit at line boundary %d (%s session): the keyboard body ended without acknowledging the quit (%d of %d guesses written)' % (n, name, len(out), len(ref)),
+                             'quit-request-dropped')
                     continue
                 if out != ref[:len(out)]:
                     acc.fail(case, 'quit at line boundary %d (%s session): stream %r is not a prefix of the uninterrupted stream' % (n, name, out[-3:]), 'line-altered')
